@@ -47,6 +47,12 @@ CLAIMED["C15"] = dict(
     technique="Lean 4 loop-invariant theorem (record-by-record) + dictionary-merge algebra; generated reader table; differential correspondence",
     note="Equality of capabilities is lookup-equivalence (everything downstream reads them with .get).")
 
+CLAIMED["C16"] = dict(
+    text="Theorems (Lean 4): for EVERY device state and EVERY reply script, apply() emits the state command and then, iff some property changed since the previous apply, ONE property write carrying exactly the changed ids plus the buzzer with the values current at that moment, after which nothing is pending (so an apply with no change sends no write); refresh() never touches the pending set and sends no write; the id each setter records is BREEZE_CONTROL iff the device advertised it (else the legacy id); the three breeze flags are views of one field (at most one active); for every value of every setting (6 angles x 2, 8 rate values, iECO, 4 breeze-control modes, legacy breeze-away / breezeless on every profile incl. the one advertising both) the value written in the vendor encoding, stored by the Spec device (Spec.PropertyStore) and read back decodes to the same setting (kernel-evaluated end-to-end at the payload level). Tie: random histories of setters/apply/refresh/get_capabilities on the real AirConditioner against a reactive simulated device whose property decisions are made by the Lean Spec through the driver, 6 capability profiles, model compared after every history; oracle on the 0xB0/0xB1 bodies the device received and on the public attributes. One genuine defect found and repaired (fix: ec50352).",
+    design="DESIGN.md §6 C16",
+    technique="Lean 4 theorems over ALL reply scripts (bookkeeping) + kernel-evaluated round trips through an executable device spec; differential correspondence on histories",
+    note="Set iteration order of property ids is not modelled; comparisons are order-insensitive on property records.")
+
 NOT_YET = {
 }
 
